@@ -21,3 +21,15 @@ def open_findings(prop):
         if f.get("status") == "open" and prop in ([f["property"]] + f.get("also", [])):
             out[f["predicate"]] = f
     return out
+
+
+INPUTS = os.path.join(VERIF, "known_inputs.json")
+
+
+def known_inputs(prop):
+    """pred -> set of '<case digest>:<hash seed>' witnesses on the fixed corpus (committed file, never written at run time)"""
+    if not os.path.exists(INPUTS):
+        return {}
+    with open(INPUTS) as f:
+        d = json.load(f)
+    return {k: set(v) for k, v in d.get(prop, {}).items()}
